@@ -159,10 +159,15 @@ Start(i) ==
   /\ Rec("S", i)
   /\ UNCHANGED <<inputs, left, flag, token, queue, cache, used, log, out, exec>>
 
+\* A message of sort key class 1 is logged for a file that several entry points share: every
+\* linker that links the file logs the identical message.  The other messages belong to files of
+\* one entry point: their sort key (file, line, column, kind, text) is theirs alone.
+Msg(i, seg, k) == IF k = 1 THEN [k |-> 1, i |-> -1, seg |-> "shared"] ELSE [k |-> k * 10 + i, i |-> i, seg |-> seg]
+
 \* the part of Link before the section (log writes), up to the link.excl.enter gate
 PreRun(i) ==
   /\ pc[i] = "pre"
-  /\ log' = IF msgs[i].pre # 0 THEN Append(log, [k |-> msgs[i].pre, i |-> i, seg |-> "pre"]) ELSE log
+  /\ log' = IF msgs[i].pre # 0 THEN Append(log, Msg(i, "pre", msgs[i].pre)) ELSE log
   /\ pc' = [pc EXCEPT ![i] = IF left[i] = 0 THEN "postgate" ELSE "gate"]
   /\ UNCHANGED <<inputs, left, flag, token, queue, cache, used, out, exec, hist>>
 
@@ -208,7 +213,7 @@ Post(i) ==
 \* generateChunksInParallel of linker i (log writes), return of link(...)
 PostRun(i) ==
   /\ pc[i] = "post"
-  /\ log' = IF msgs[i].post # 0 THEN Append(log, [k |-> msgs[i].post, i |-> i, seg |-> "post"]) ELSE log
+  /\ log' = IF msgs[i].post # 0 THEN Append(log, Msg(i, "post", msgs[i].post)) ELSE log
   /\ pc' = [pc EXCEPT ![i] = "done"]
   /\ UNCHANGED <<inputs, left, flag, token, queue, cache, used, out, exec, hist>>
 
@@ -249,17 +254,16 @@ RECURSIVE RefFrom(_, _, _, _, _)
 RefFrom(i, c, u, o, l) ==
   IF i = N THEN [cache |-> c, used |-> u, joined |-> o, log |-> l]
   ELSE LET s == Section(i, c, u)
-           l1 == IF msgs[i].pre # 0 THEN Append(l, [k |-> msgs[i].pre, i |-> i, seg |-> "pre"]) ELSE l
-           l2 == IF msgs[i].post # 0 THEN Append(l1, [k |-> msgs[i].post, i |-> i, seg |-> "post"]) ELSE l1
+           l1 == IF msgs[i].pre # 0 THEN Append(l, Msg(i, "pre", msgs[i].pre)) ELSE l
+           l2 == IF msgs[i].post # 0 THEN Append(l1, Msg(i, "post", msgs[i].post)) ELSE l1
        IN RefFrom(i + 1, s[1], s[2], Append(o, s[3]), l2)
 Ref == RefFrom(0, [p \in AllProps |-> IF \E pr \in preset : pr[1] = p
                                         THEN (CHOOSE pr \in preset : pr[1] = p)[2] ELSE NoName],
                {}, <<>>, <<>>)
 
-AllKeys == {msgs[i].pre : i \in I} \cup {msgs[i].post : i \in I}
-KeysTotal ==   \* no two different messages share a sort key
-  \A i, j \in I : \A a, b \in {"pre", "post"} :
-     (<<i, a>> # <<j, b>> /\ msgs[i][a] # 0) => msgs[i][a] # msgs[j][b]
+AllMsgs == {Msg(i, "pre", msgs[i].pre) : i \in {j \in I : msgs[j].pre # 0}}
+             \cup {Msg(i, "post", msgs[i].post) : i \in {j \in I : msgs[j].post # 0}}
+KeysTotal == \A a, b \in AllMsgs : a.k = b.k => a = b   \* messages with equal sort keys are identical
 
 (***************************************************************************)
 (* Invariants                                                              *)
